@@ -743,9 +743,21 @@ class ListContext(contexts.Context):
         return [fd for fd in order if fd in s], excl
 
 
+RELAY = {}     # 'body': what the function with the injected `yaql_interface` does when it is called next
+
+
+def relay(yaql_interface):
+    """a host function that gets the hidden `yaql_interface` parameter and makes calls through it"""
+    return RELAY['body'](yaql_interface)
+
+
+RELAY_NAME = '#relay'
+
+
 def _base_context():
     ctx = ROOT.create_child_context()
     ctx.register_function(tick, name='tick')
+    ctx.register_function(relay, name=RELAY_NAME)
     for i, v in enumerate(CORPUS):
         ctx['$v%d' % i] = v
     return ctx
@@ -925,7 +937,11 @@ class History:
            ['reg', i, fid, exclusive]              the prepared FunctionDefinition of overload fid (one object per fid)
            ['regc', i, fid, exclusive, did]        the Python CALLABLE of overload fid (one object per fid) is handed
                                                    to register_function; the definition made of it is `did`
-           ['del', i, did] | ['call', i, cspec, name]
+           ['del', i, did] | ['call', i, cspec, name] | ['call', i, cspec, name, via]
+           via: how the host makes the call - None: ctx(name, engine, receiver)(..); 'yi': through THE YaqlInterface of
+           context i (yi.name(..) / yi.on(receiver).name(..)); 'yid': through the interface derived last with on();
+           'yir': through an interface made with a receiver; 'inj': inside a host function, through the
+           `yaql_interface` it gets injected (consecutive 'inj' calls from one context share one invocation)
     defs: {fid: ospec}.  Definition ids: did = fid for prepared definitions."""
 
     def __init__(self, defs, cls=None):
@@ -944,6 +960,84 @@ class History:
         self.msteps = []        # the steps as the model is told them
         self.invalid = []
         self.table_fails = []
+        # the host entry point YaqlInterface: ONE interface per context, kept for the whole history, the interfaces
+        # derived from it with on() (the last one per context is kept alive too), one made WITH a receiver;
+        # value = (interface object, handle of the model)
+        self.yi = {}
+        self.derived = {}
+        self.yir = {}
+        self.n_yi = 0
+
+    # ---- calls through YaqlInterface (yi.name(..), yi.on(obj).name(..), the injected yaql_interface)
+    def _handle(self, step):
+        self.msteps.append(step)
+        self.n_yi += 1
+        return self.n_yi - 1
+
+    def _through(self, base, i, call, name, keep=True):
+        """the call made through the interface family of `base` = (interface, model handle): without receiver
+        through the interface itself, with one through base.on(receiver) - or through base itself when that IS
+        its receiver"""
+        obj, h = base
+        if call.recv is not utils.NO_VALUE and obj.sender is not call.recv:
+            obj, h = obj.on(call.recv), self._handle(dict(k='on', y=h, recv=T.val(call.recv)))
+            if keep:
+                self.derived[i] = (obj, h)
+        self.msteps.append(dict(k='ycall', y=h, name=name, call=call.enc()))
+        return lambda n, recv, args, kw: getattr(obj, n)(*args, **kw)
+
+    def _invoker(self, i, via, call, name):
+        """-> the `invoke` of run_real for this way of calling (and tells the model the same steps)"""
+        from yaql import yaql_interface
+        ctx = self.ctxs[i]
+        norecv = call.recv is utils.NO_VALUE
+        if via == 'yir' and not norecv:
+            if i not in self.yir:
+                self.yir[i] = (yaql_interface.YaqlInterface(ctx, ENGINE, call.recv),
+                               self._handle(dict(k='yi', i=i, recv=T.val(call.recv))))
+            return self._through(self.yir[i], i, call, name, keep=False)
+        if via == 'yid' and i in self.derived and not norecv:
+            return self._through(self.derived[i], i, call, name)
+        if via in ('yi', 'yid', 'yir'):
+            if i not in self.yi:
+                self.yi[i] = (yaql_interface.YaqlInterface(ctx, ENGINE), self._handle(dict(k='yi', i=i)))
+            return self._through(self.yi[i], i, call, name)
+        self.msteps.append(dict(k='call', i=i, name=name, call=call.enc()))
+        return None
+
+    def call_group(self, items):
+        """consecutive call steps [(step, BuiltCall)] from ONE context, all made inside one invocation of a host
+        function through the `yaql_interface` it gets injected -> [(real outcome, rules' outcome)]"""
+        i = items[0][0][1]
+        v = self.view(i)
+        out = []
+        injected = (None, self._handle(dict(k='inject', i=i)))
+
+        def body(yi):
+            base = (yi, injected[1])
+            for st, call in items:
+                invoke = self._through(base, i, call, st[3], keep=False)
+                real = run_real(v, call, st[3], invoke)
+                exp = spec_resolve(v, call, st[3], chain=self.chain(i, st[3]))
+                if 'id' in exp:
+                    exp['id'] = exp['id'].tag
+                out.append((real, exp))
+        RELAY['body'] = body
+        try:
+            self.ctxs[i](RELAY_NAME, ENGINE)()
+        except Exception as e:          # the host function itself could not be called / returned abnormally
+            failure = dict(log=[], err='host function with injected yaql_interface: ' + err_class(e))
+        else:
+            failure = dict(log=[], err='host function with injected yaql_interface did not run')
+        finally:
+            RELAY.pop('body', None)
+        for st, call in items[len(out):]:
+            self.msteps.append(dict(k='call', i=i, name=st[3], call=call.enc()))
+            exp = spec_resolve(v, call, st[3], chain=self.chain(i, st[3]))
+            if 'id' in exp:
+                exp['id'] = exp['id'].tag
+            out.append((dict(failure), exp))
+        return out
 
     def callable_of(self, fid):
         """ONE Python callable per overload spec: prepared definitions and register_function(<callable>) calls all
@@ -1051,13 +1145,15 @@ class History:
 
     def call(self, st, call):
         """a call step: (real outcome, what the written rules give for the family of this moment)"""
-        _, i, _, name = st
+        i, name = st[1], st[3]
+        via = st[4] if len(st) > 4 else None
+        if via == 'inj':
+            return self.call_group([(st, call)])[0]
         v = self.view(i)
-        real = run_real(v, call, name)
+        real = run_real(v, call, name, self._invoker(i, via, call, name))
         exp = spec_resolve(v, call, name, chain=self.chain(i, name))
         if 'id' in exp:
             exp['id'] = exp['id'].tag
-        self.msteps.append(dict(k='call', i=i, name=name, call=call.enc()))
         return real, exp
 
     def enc(self):
@@ -1249,13 +1345,18 @@ def _choose_overload(*a, **k):
 runner.choose_overload = _choose_overload
 
 
-def run_real(fam, call, name='f'):
+def run_real(fam, call, name='f', invoke=None):
+    """`invoke(name, receiver, args, kwargs)`: another host entry point that makes the same call (default: the
+    context itself, `ctx(name, engine, receiver)(*args, **kwargs)`)"""
     del LOG[:]
     del REC[:]
     PHASE['chosen'] = False
     PHASE['depth'] = 0
     try:
-        fam.ctx(name, ENGINE, call.recv)(*call.args, **dict(call.kw))
+        if invoke is None:
+            fam.ctx(name, ENGINE, call.recv)(*call.args, **dict(call.kw))
+        else:
+            invoke(name, call.recv, call.args, dict(call.kw))
     except Exception as e:
         if PHASE['chosen']:
             return dict(log=list(LOG), delegate_error=type(e).__name__)
